@@ -157,7 +157,18 @@ def run_cases(ck, res, n_cases, n_interval):
                 ck.traces += 1
                 if not enga.close(mv, float(pv[i]), 1.0):
                     ck.broke('correspondence-broken', f'pyfront:legendre_{d}', f'model {mv!r} impl {float(pv[i])!r}')
-    for degrees in ([0, 1, 2, 3, 4, 5, 6, 7, 8, 9, 10, 11, 12], [7, 2], [3], [12, 0, 5]):
+    # "for every degree": beyond the 13 generated degrees the implementation is compared with the stable reference
+    # (numpy's Clenshaw evaluation) at high degrees too; an unstable or wrong evaluation scheme shows up there
+    for d in (13, 16, 20, 21, 22, 24, 25, 30, 40, 64):
+        xs = [dy(r, -1, 1, 5) for _ in range(5)] + [1.0, -1.0]
+        pv = FB.LegendrePolynomial(d)(enga.col(torch, xs, grad=False)).reshape(-1)
+        ref = np.polynomial.legendre.legval(np.array(xs), [0] * d + [1])
+        ck.add_case(('legendre-high', d))
+        for i in range(len(xs)):
+            if not enga.close(float(pv[i]), float(ref[i]), 1.0, rel=1e-11):
+                ck.fail(f'legendre/value-{d}', f'LegendrePolynomial({d})({xs[i]}) = {float(pv[i])!r}, expected {float(ref[i])!r}', {'degree': d, 'x': xs[i]},
+                        expected=float(ref[i]), actual=float(pv[i]))
+    for degrees in ([0, 1, 2, 3, 4, 5, 6, 7, 8, 9, 10, 11, 12], [7, 2], [3], [12, 0, 5], [21, 30, 3], [48]):
         ths = [dy(r, 0.1, 3.0, 4) for _ in range(3)]
         Z = FB.ZonalSphericalHarmonics(degrees=list(degrees))(enga.col(torch, ths, grad=False), enga.col(torch, [0.0] * 3, grad=False))
         ck.add_case(('zonal', tuple(degrees)))
